@@ -82,9 +82,11 @@ def gen_driver_rs(prog, module_path, extra="", inspect_path=None):
     w("use std::io::{self, Read, Write};")
     w("type M = Thy;")
     w("fn new_el(m: &mut M, t: usize) -> u32 { match t {")
+    enums = sig.get("enums", {})
     for i in range(nt):
-        w("  %d => m.new_%s().0," % (i, snake(T[i])))
-    w("  _ => panic!(\"bad type\") } }")
+        if i not in enums:
+            w("  %d => m.new_%s().0," % (i, snake(T[i])))
+    w("  _ => panic!(\"bad type or enum type\") } }")
     w("fn root(m: &M, t: usize, a: u32) -> u32 { match t {")
     for i in range(nt):
         w("  %d => m.root_%s(%s(a)).0," % (i, snake(T[i]), T[i]))
@@ -225,7 +227,7 @@ fn main() {
             "qi" => { let a = nums(1); let rows = iter_rel(&m, a[0]);
                       writeln!(out, "qi {}", rows.iter().map(|row| row.iter().map(|x| x.to_string()).collect::<Vec<_>>().join(",")).collect::<Vec<_>>().join(" ")).unwrap(); }
             "qt" => { let a = nums(1); writeln!(out, "qt {}", iter_type(&m, a[0]).iter().map(|x| x.to_string()).collect::<Vec<_>>().join(" ")).unwrap(); }
-            "x" => { extra_call(&mut m, &t, &h, &mut out); }
+            "x" => { extra_call(&mut m, &t, &mut h, &mut out); }
             _ => panic!("bad call {}", t[0]),
         }
     }
@@ -233,7 +235,82 @@ fn main() {
 }
 '''
 
-DEFAULT_EXTRA = "fn extra_call(m: &mut M, t: &[&str], h: &[(usize, u32)], out: &mut dyn Write) {}\n"
+DEFAULT_EXTRA = "fn extra_call(m: &mut M, t: &[&str], h: &mut Vec<(usize, u32)>, out: &mut dyn Write) {}\n"
+
+
+def enum_extra(prog):
+    """extra_call for programs with enums:
+         x case T id      -> "x case <ctor rel> <arg ids..> eq=<0|1>"  (eq: ctor(args) evaluates to an element equal to id)
+                             or "x case PANIC"
+         x cases T id     -> "x cases <ctor>:<args,>|..."
+         x newenum T C h..-> "x newenum <id>" (pushes a handle)"""
+    sig = prog["sig"]
+    rels = sig["rels"]
+    L = []
+    w = L.append
+    w("fn case_of(m: &M, ty: usize, id: u32) -> (usize, Vec<u32>) { match ty {")
+    for ty, ctors in sig.get("enums", {}).items():
+        T = tname(ty)
+        arms = []
+        for c in ctors:
+            n = len(rels[c]["cols"]) - 1
+            pat = ", ".join("a%d" % j for j in range(n))
+            arms.append("%sCase::%s(%s) => (%d, vec![%s])" % (T, rels[c]["name"][0].upper() + rels[c]["name"][1:], pat, c,
+                                                              ", ".join("a%d.0" % j for j in range(n))))
+        w("  %d => match m.%s_case(%s(id)) { %s }," % (ty, snake(T), T, ", ".join(arms)))
+    w("  _ => panic!(\"not an enum\") } }")
+    w("fn cases_of(m: &M, ty: usize, id: u32) -> Vec<(usize, Vec<u32>)> { match ty {")
+    for ty, ctors in sig.get("enums", {}).items():
+        T = tname(ty)
+        arms = []
+        for c in ctors:
+            n = len(rels[c]["cols"]) - 1
+            pat = ", ".join("a%d" % j for j in range(n))
+            arms.append("%sCase::%s(%s) => (%d, vec![%s])" % (T, rels[c]["name"][0].upper() + rels[c]["name"][1:], pat, c,
+                                                              ", ".join("a%d.0" % j for j in range(n))))
+        w("  %d => m.%s_cases(%s(id)).map(|c| match c { %s }).collect()," % (ty, snake(T), T, ", ".join(arms)))
+    w("  _ => panic!(\"not an enum\") } }")
+    w("fn new_enum(m: &mut M, ty: usize, c: usize, a: &[u32]) -> u32 { match (ty, c) {")
+    for ty, ctors in sig.get("enums", {}).items():
+        T = tname(ty)
+        for c in ctors:
+            cols = rels[c]["cols"][:-1]
+            args = ", ".join("%s(a[%d])" % (tname(t), j) for j, t in enumerate(cols))
+            w("  (%d, %d) => m.new_%s(%sCase::%s(%s)).0," % (ty, c, snake(T), T, rels[c]["name"][0].upper() + rels[c]["name"][1:], args))
+    w("  _ => panic!(\"bad enum ctor\") } }")
+    w(r'''
+fn extra_call(m: &mut M, t: &[&str], h: &mut Vec<(usize, u32)>, out: &mut dyn Write) {
+    let n = |i: usize| -> usize { t[i].parse().unwrap() };
+    match t[1] {
+        "case" => {
+            let ty = n(2); let id = n(3) as u32;
+            let r = std::panic::catch_unwind(std::panic::AssertUnwindSafe(|| case_of(m, ty, id)));
+            match r {
+                Err(_) => writeln!(out, "x case PANIC").unwrap(),
+                Ok((c, args)) => {
+                    let eq = eval(m, c, &args).map_or(false, |v| are_equal(m, ty, v, id));
+                    writeln!(out, "x case {} {} eq={}", c, args.iter().map(|x| x.to_string()).collect::<Vec<_>>().join(","), eq as u8).unwrap();
+                }
+            }
+        }
+        "cases" => {
+            let ty = n(2); let id = n(3) as u32;
+            let cs = cases_of(m, ty, id);
+            writeln!(out, "x cases {}", cs.iter().map(|(c, a)| format!("{}:{}", c, a.iter().map(|x| x.to_string()).collect::<Vec<_>>().join(","))).collect::<Vec<_>>().join("|")).unwrap();
+        }
+        "newenum" => {
+            let ty = n(2); let c = n(3);
+            let a: Vec<u32> = t[4..].iter().map(|x| h[x.parse::<usize>().unwrap()].1).collect();
+            let e = new_enum(m, ty, c, &a);
+            h.push((ty, e));
+            writeln!(out, "x newenum {}", e).unwrap();
+        }
+        _ => panic!("bad extra call"),
+    }
+}
+''')
+    return "\n".join(L)
+
 
 # `x inspect` prints every private field ("X ..."); `x qp R id..` / `x qf F id..` query with RAW element ids (not
 # handles), so that arguments can be replaced by arbitrary equal non-root elements.
